@@ -276,7 +276,17 @@ func validateSamples(spec *Spec, cases []*Case, perCase int) (int, string) {
 			case res[r.ID] == "PASSED":
 				ok++
 			case res[r.ID] == "":
-				tail := out
+				// the test binary did not get to this run (build hiccup, timeout of the whole batch on a
+				// loaded machine): run it alone before giving up
+				replayTimeScale = 4
+				res2, out2 := nativeReplay(spec.Property, pkg, []ReplayRun{r}, file+".retry")
+				replayTimeScale = 1
+				os.Remove(file + ".retry")
+				if res2[r.ID] == "PASSED" {
+					ok++
+					continue
+				}
+				tail := out + out2
 				if len(tail) > 1500 {
 					tail = tail[len(tail)-1500:]
 				}
